@@ -691,7 +691,7 @@ def eval_cases(ctx, lits, shard):
     vlib.NPROC = max(4, saved // 2)
     try:
         bad2, errs2 = vlib.coq_bad_indices('C16r', IMPORTS, 'caseT', 'chk_case', [lits[i] for i in idx],
-                                           shard=max(1, len(idx) // 8 + 1), timeout=tmo)
+                                           shard=shard, timeout=tmo)
     finally:
         vlib.NPROC = saved
     return sorted(bad + [idx[j] for j in bad2]), errs2
